@@ -195,6 +195,15 @@ DevIter(s, e, st) ==
   IF ~EagerNextLeavesT(s, e, st) THEN "none"
   ELSE IF Wraps THEN "DevEagerNextWraps" ELSE "DevEagerNext"
 
+\* what the wrapping variant yields: it goes on from the wrapped sum while that is not beyond end
+\* (cut off after IterCap elements - the driver's loop stops there and reports "runaway")
+IterCap == 301
+Wrap(x) == Lo + ((x - Lo) % (Hi - Lo + 1))
+RECURSIVE DevWrapRun(_, _, _, _, _)
+DevWrapRun(x, e, st, k, acc) ==
+  IF k = 0 \/ Beyond(x, e, st) THEN acc ELSE DevWrapRun(Wrap(x + st), e, st, k - 1, Append(acc, x))
+DevWrapSeq(s, e, st) == DevWrapRun(s, e, st, IterCap, << >>)
+
 \* DevContainsDiff: contains(x) computes  x - start  with the type's checked `-` for every x
 \* strictly between start and end; it fails exactly when that difference is not a value of T.
 StrictlyBetween(x, s, e) == (s < x /\ x < e) \/ (e < x /\ x < s)
@@ -212,6 +221,8 @@ Row == [lo |-> Lo, hi |-> Hi, s |-> start, e |-> end, h |-> has, p |-> arg,
         seq |-> out,
         mem |-> IF phase = "done" THEN Members(start, end, step) ELSE {},
         devIter |-> IF phase = "done" THEN DevIter(start, end, step) ELSE "none",
+        devSeq |-> IF phase = "done" /\ DevIter(start, end, step) = "DevEagerNextWraps"
+                   THEN DevWrapSeq(start, end, step) ELSE << >>,
         devFail |-> IF phase = "done" THEN DevContainsFails(start, end, step) ELSE {},
         devEnd |-> IF phase = "done" THEN DevContainsEnd(start, end, step) ELSE FALSE]
 
